@@ -360,6 +360,24 @@ impl Target {
                     }
                 };
 
+                // A path assignment replaces only a part of the variable: the compile-time constant of
+                // the whole variable is its previous constant with the new part inserted (if both are known).
+                let value = if path.is_root() {
+                    value
+                } else {
+                    let previous = state
+                        .local
+                        .variable(ident)
+                        .and_then(|details| details.value.clone());
+                    match (previous, value) {
+                        (Some(mut whole), Some(part)) => {
+                            whole.insert(path, part);
+                            Some(whole)
+                        }
+                        _ => None,
+                    }
+                };
+
                 let details = Details { type_def, value };
                 state.local.insert_variable(ident.clone(), details);
             }
